@@ -150,7 +150,16 @@ func (g *qeGen) regexFrom(v string) string {
 	lo, hi := r.intn(len(runes)), 0
 	hi = lo + 1 + r.intn(len(runes)-lo)
 	part := string(runes[lo:hi])
-	switch r.intn(16) {
+	switch r.intn(19) {
+	case 16, 17:
+		// a dot between alphanumerics (host name heuristic: plain text for the optimiser, a wildcard for a backend)
+		if d := qeDotted(r, runes); d != "" {
+			return d
+		}
+
+		return part
+	case 18:
+		return part + vPick(r, []string{")", "]", "}", ")x"}) // plain text for the optimiser, not a pattern
 	case 14:
 		return "^" + qeSwapCase(v) + "$" // anchored literal in another case (~~ must still find it)
 	case 15:
@@ -184,6 +193,40 @@ func (g *qeGen) regexFrom(v string) string {
 	default:
 		return qeRegexQuote(string(runes[lo:hi])) + "?" + "\\w*"
 	}
+}
+
+// qeDotted replaces one character of v, which has an alphanumeric before and a letter behind it, by a dot:
+// as a pattern it still matches v, as plain text it does not
+func qeDotted(r *vRand, runes []rune) string {
+	isAlnum := func(c rune) bool {
+		return (c >= 'a' && c <= 'z') || (c >= 'A' && c <= 'Z') || (c >= '0' && c <= '9')
+	}
+	isAlpha := func(c rune) bool { return (c >= 'a' && c <= 'z') || (c >= 'A' && c <= 'Z') }
+	cand := []int{}
+	for i := 1; i+1 < len(runes); i++ {
+		if isAlnum(runes[i-1]) && isAlpha(runes[i+1]) {
+			cand = append(cand, i)
+		}
+	}
+	if len(cand) == 0 || len(runes) < 4 {
+		return ""
+	}
+	i := cand[r.intn(len(cand))]
+	out := append([]rune{}, runes...)
+	out[i] = '.'
+	lo := 0
+	if i > 2 && r.chance(1, 2) {
+		lo = r.intn(i - 1)
+	}
+	hi := len(out)
+	if hi-i > 3 && r.chance(1, 2) {
+		hi = i + 2 + r.intn(hi-i-2)
+	}
+	if hi-lo < 4 {
+		lo, hi = 0, len(out)
+	}
+
+	return string(out[lo:hi])
 }
 
 func (g *qeGen) colType(table, col string) DataType {
@@ -296,6 +339,8 @@ func (g *qeGen) leaf(table string) string {
 			val = qeSwapCase(base)
 		case r.chance(1, 8):
 			val = ""
+		case (op == "like" || op == "unlike" || op == "ilike" || op == "iunlike") && r.chance(1, 4):
+			val = g.regexFrom(base) // plain text which would mean something else as a pattern
 		case (op == "like" || op == "unlike" || op == "ilike" || op == "iunlike") && len(base) > 1:
 			rs := []rune(base)
 			lo := r.intn(len(rs))
@@ -353,10 +398,76 @@ func (g *qeGen) numericCols(table string) []string {
 	return res
 }
 
+// cutoffRequest: an index-answerable selection of several hosts, the table's default order and a small window:
+// the per-backend cut-off relies on the pre-selected rows being in primary key order
+func (g *qeGen) cutoffRequest(table string) string {
+	r := g.r
+	g.count("shape:cutoff")
+	hcol := "name"
+	lines := []string{"GET " + table, "Columns: name state"}
+	if table == "services" {
+		hcol = "host_name"
+		lines[1] = "Columns: host_name description state"
+	}
+	names := g.dataValues(table, hcol)
+	pickName := func() string {
+		if len(names) == 0 {
+			return "web"
+		}
+
+		return vPick(r, names)
+	}
+	switch r.intn(5) {
+	case 0, 1:
+		rs := []rune(pickName())
+		n := 1 + r.intn(3)
+		if n > len(rs) {
+			n = len(rs)
+		}
+		lines = append(lines, fmt.Sprintf("Filter: %s %s %s", hcol, vPick(r, []string{"~", "~~", "~"}), qeRegexQuote(string(rs[:n]))))
+	case 2:
+		n := 2 + r.intn(3)
+		for i := 0; i < n; i++ {
+			lines = append(lines, fmt.Sprintf("Filter: %s = %s", hcol, pickName()))
+		}
+		lines = append(lines, fmt.Sprintf("Or: %d", n))
+	case 3:
+		gcol := "groups"
+		if table == "services" {
+			gcol = "host_groups"
+		}
+		gs := g.dataValues("hostgroups", "name")
+		gname := "nogroup"
+		if len(gs) > 0 {
+			gname = vPick(r, gs)
+		}
+		lines = append(lines, fmt.Sprintf("Filter: %s >= %s", gcol, gname))
+	default:
+		lines = append(lines, fmt.Sprintf("Filter: %s ~~ %s", hcol, vPick(r, []string{".", "^[a-z]", "e", "[0-9]"})))
+	}
+	if r.chance(3, 4) {
+		if table == "hosts" {
+			lines = append(lines, "Sort: name asc")
+		} else {
+			lines = append(lines, "Sort: host_name asc", "Sort: description asc")
+		}
+	}
+	lines = append(lines, fmt.Sprintf("Limit: %d", vPick(r, []int{1, 1, 2, 3, 4})))
+	if r.chance(1, 3) {
+		lines = append(lines, fmt.Sprintf("Offset: %d", vPick(r, []int{1, 2, 3})))
+	}
+	lines = append(lines, "OutputFormat: "+vPick(r, []string{"json", "wrapped_json"}))
+
+	return strings.Join(lines, "\n") + "\n\n"
+}
+
 func (g *qeGen) request() string {
 	r := g.r
 	table := vPick(r, g.tables)
 	g.count("table:" + table)
+	if g.pIndexLeaf > 0 && g.pLimit >= 50 && (table == "hosts" || table == "services") && r.chance(1, 5) {
+		return g.cutoffRequest(table)
+	}
 	lines := []string{"GET " + table}
 	cols := qeQueryCols[table]
 	isStats := r.intn(100) < g.pStats
@@ -502,15 +613,15 @@ func (g *qeGen) groupedStats(table string, lines *[]string) {
 			// a nested group as common first term
 			g.filterTree(table, "Stats", 1, &first)
 		case 1, 2:
-			first = []string{"Stats: custom_variables = " + vPick(r, qeCVNames) + " " + vPick(r, qeCVValues)}
+			first = []string{"Stats: custom_variables = " + vPick(r, qeCVNames) + " " + vPick(r, []string{"1", "1", "x", "Berlin"})}
 		default:
 			first = []string{"Stats: " + g.leaf(table)}
 		}
-		blocks := 2 + r.intn(3)
+		blocks := 2 + r.intn(4)
 		for b := 0; b < blocks; b++ {
 			cur := append([]string{}, first...)
 			// near variants of the shared first term in later blocks: the optimiser must not take them for the same term
-			if len(first) == 1 && b >= 1 && r.chance(1, 3) {
+			if len(first) == 1 && ((b == 1 && r.chance(1, 6)) || (b >= 2 && r.chance(1, 2))) {
 				parts := strings.SplitN(first[0], " ", 5) // Stats: <col> <op> <rest>
 				switch {
 				case strings.HasPrefix(first[0], "Stats: custom_variables") && len(parts) == 5:
